@@ -1,0 +1,15 @@
+//go:build verif
+
+package rueidis
+
+import "sync/atomic"
+
+// verifHook is installed by the verification harness (build tag verif) to take control at
+// named schedule points; nil by default.
+var verifHook atomic.Pointer[func(string)]
+
+func verifPoint(name string) {
+	if fn := verifHook.Load(); fn != nil {
+		(*fn)(name)
+	}
+}
